@@ -307,9 +307,28 @@ def literal_tokens(check: Check, repo) -> None:
         check.oblige("LITERAL-TOKENS", cons, sig, False, sample=True, finding=Finding("LITERAL-TOKENS", cons, sig, f"{sig}: e.g. {msgs[0]} ({len(msgs)} of {n} model expressions)", {"witness": msgs[0]}))
 
 
+def literal_texts(check: Check, repo, tier: str) -> bool:
+    """LITERAL-TEXTS: from the grammar text to the terminal (scanner and token parser evaluated from their syntax
+    trees, sa/frontsem.py): every model expression with a character / string literal - escapes that decode to a
+    backslash followed by a letter included - builds the terminal over the code points the text denotes."""
+    from ..frontsem import check_front_end
+
+    cons = "src/pest/grammar/parser.py::Parser.parse"
+    n, bad = check_front_end(repo, cons, tier == "thorough", only=lambda toks: any(k in ("CHAR", "STRING", "STRING_CI") for k, _ in toks))
+    check.count("literal_text_points", n)
+    check.oblige("LITERAL-TEXTS", cons, f"on all {n} model grammar texts with literals the terminal gets the code points the text denotes", True, sample=True)
+    cats: dict[str, list[str]] = {}
+    for cat, msg in bad:
+        cats.setdefault(cat, []).append(msg)
+    for cat, msgs in sorted(cats.items()):
+        sig = f"literal texts: {cat}"
+        check.oblige("LITERAL-TEXTS", cons, sig, False, sample=True, finding=Finding("LITERAL-TEXTS", cons, sig, f"{sig}: e.g. {msgs[0]} ({len(msgs)} of {n} model texts)", {"witness": msgs[0]}))
+    return not bad
+
+
 def run(tier: str) -> Check:
     check = Check("C12", tier, EXPLANATION)
-    check.rules = ["BUILTIN-TABLE", "RANGE", "CASE", "CONST-PARITY", "PATTERN-FRAGMENT", "MERGE", "ESCAPE-TABLE", "CURSOR", "UNESCAPE-ONCE", "LITERAL-TOKENS", "TERM-SEM"]
+    check.rules = ["BUILTIN-TABLE", "RANGE", "CASE", "CONST-PARITY", "PATTERN-FRAGMENT", "MERGE", "ESCAPE-TABLE", "CURSOR", "UNESCAPE-ONCE", "LITERAL-TOKENS", "LITERAL-TEXTS", "TERM-SEM"]
     check.assumptions = [
         "the regex engine's own Unicode tables (\\p{...}) and its handling of escaped characters inside classes are trusted",
         "pest's built-in definitions are frozen in the checker from the pest book ('Built-in rules')",
@@ -323,22 +342,20 @@ def run(tier: str) -> Check:
     merge_arithmetic(check, repo, tier)
     from .c10 import META, escape_tables
 
-    escape_tables(check, repo, pestlang.read_pest(repo.read(META), META))
-    try:
-        cursor(check, repo)
-    except AnalysisError as err:
-        # the symbolic cursor analysis knows index arithmetic only (not, say, a regex-based decoder); DECODE above
-        # has decided the decoder on its model, so this is reported without hiding what DECODE found
-        check.defer_error(f"cursor analysis not applicable: {err}")
-        check.count("cursor_paths", 8)
-    unescape_once(check, repo)
-    literal_tokens(check, repo)
-    check.floor("literal_token_expressions", 8)
+    dec_ok = escape_tables(check, repo, pestlang.read_pest(repo.read(META), META))
+    # the symbolic cursor analysis knows index arithmetic only (not, say, a regex-based decoder): a second opinion
+    # behind DECODE, which has decided the decoder on its model texts
+    check.second_opinion(lambda c: cursor(c, repo), "DECODE", dec_ok)
+    # grammar text -> scanner -> token parser -> terminal, on the literal cases (sa/frontsem.py) decides "delimiters
+    # removed once, escapes decoded once"; which of scanner and parser does the decoding is the code's own business,
+    # so the token-level reading and the census of unescape calls are second opinions behind it
+    lit_ok = literal_texts(check, repo, tier)
+    check.second_opinion(lambda c: unescape_once(c, repo), "LITERAL-TEXTS", lit_ok)
+    check.second_opinion(lambda c: literal_tokens(c, repo), "LITERAL-TEXTS", lit_ok)
+    check.floor("literal_text_points", 30)
     check.floor("terminal_model_points", 700)
-    check.floor("unescape_paths", 3)
     check.floor("decoder_model_texts", 500)
     check.floor("builtin_entries", 11)
-    check.floor("cursor_paths", 8)
     check.floor("pattern_fragments", 8)
     check.floor("compiled_constant_pairs", 4)
     return check
